@@ -92,17 +92,41 @@ func (r *Resolver) Resolve(f *File, t *Type) *RT {
 		case d.Typedef != nil && d.Typedef.Name == name:
 			return r.Resolve(f, d.Typedef.Type)
 		case d.Enum != nil && d.Enum.Name == name:
-			return &RT{K: "enum", Struct: name}
+			return &RT{K: "enum", Struct: r.qual(f, name)}
 		case d.Struct != nil && d.Struct.Name == name:
-			return &RT{K: d.Struct.Kind, Struct: name}
+			return &RT{K: d.Struct.Kind, Struct: r.qual(f, name)}
 		}
 	}
 	panic("resolve: unknown type " + t.Name)
 }
 
-// EnumValues returns the numeric values of an enum (Thrift numbering), looked up in any file.
+// qual is the program-wide name of a declaration of file f: bare for the main file, prefixed with the
+// include name otherwise (two files may declare the same bare name).
+func (r *Resolver) qual(f *File, name string) string {
+	if len(r.P.Files) > 0 && f == r.P.Files[0] {
+		return name
+	}
+	return strings.TrimSuffix(f.Name, ".frugal") + "." + name
+}
+
+// filesFor returns the files a program-wide name may live in and its bare name.
+func (r *Resolver) filesFor(name string) ([]*File, string) {
+	if i := strings.Index(name, "."); i > 0 {
+		if f := r.file(name[:i]); f != nil {
+			return []*File{f}, name[i+1:]
+		}
+		return nil, name
+	}
+	if len(r.P.Files) > 0 {
+		return r.P.Files[:1], name
+	}
+	return nil, name
+}
+
+// EnumValues returns the numeric values of an enum (Thrift numbering) by its program-wide name.
 func (r *Resolver) EnumValues(name string) map[string]int64 {
-	for _, f := range r.P.Files {
+	files, name := r.filesFor(name)
+	for _, f := range files {
 		for _, d := range f.Decls {
 			if d.Enum != nil && d.Enum.Name == name {
 				out := map[string]int64{}
@@ -122,9 +146,10 @@ func (r *Resolver) EnumValues(name string) map[string]int64 {
 	return nil
 }
 
-// FindStruct looks a struct-like declaration up by name in any file, returning its file too.
+// FindStruct looks a struct-like declaration up by its program-wide name, returning its file too.
 func (r *Resolver) FindStruct(name string) (*Struct, *File) {
-	for _, f := range r.P.Files {
+	files, name := r.filesFor(name)
+	for _, f := range files {
 		for _, d := range f.Decls {
 			if d.Struct != nil && d.Struct.Name == name {
 				return d.Struct, f
@@ -136,7 +161,7 @@ func (r *Resolver) FindStruct(name string) (*Struct, *File) {
 
 // StructRT describes a struct-like for the driver.
 func (r *Resolver) StructRT(s *Struct, f *File) *SRT {
-	out := &SRT{Name: s.Name, Kind: s.Kind, Fields: map[string]*RT{}}
+	out := &SRT{Name: r.qual(f, s.Name), Kind: s.Kind, Fields: map[string]*RT{}}
 	for _, fl := range s.Fields {
 		out.Fields[strconv.Itoa(fl.ID)] = r.Resolve(f, fl.Type)
 	}
@@ -149,7 +174,7 @@ func (r *Resolver) AllStructRTs() map[string]*SRT {
 	for _, f := range r.P.Files {
 		for _, d := range f.Decls {
 			if d.Struct != nil {
-				out[d.Struct.Name] = r.StructRT(d.Struct, f)
+				out[r.qual(f, d.Struct.Name)] = r.StructRT(d.Struct, f)
 			}
 		}
 	}
